@@ -1,7 +1,7 @@
 (* Run/RdpTables.v — finite oracle tables (association lists keyed by the absolute half-open range (l, r)) shared by
    the C01 / C04 judges. *)
 From Coq Require Import ZArith List Arith Bool PrimFloat.
-From Knee Require Import Num NumFloat NpList Model.Mapping Model.Rdp.
+From Knee Require Import Num NumFloat NpList Model.Mapping Model.Rdp Model.LinearFit Model.RdpCost.
 Import ListNotations.
 
 (* oracle tables keyed by the absolute half-open range (l, r) of the sub-array points[l:r] *)
@@ -22,3 +22,14 @@ Definition cost_from (ct : ctab) (l r : nat) : float :=
 Definition shape_ok (dt : dtab) : bool :=
   forallb (fun e => length (snd e) =? snd (fst e) - fst (fst e)) dt.
 
+
+(* ---- derived segment cost (Model/RdpCost.v) on binary64 ---- *)
+Definition metric_eps : float := 0x1.cd2b297d889bcp-54%float.       (* the Python literal 1e-16 *)
+(* the model's segcost: computed from the points for smape / rpd / rmspe / R2, the table (oracle) for rmsle *)
+Definition segcost_of (m : metric) (pts : list (float * float)) (ct : ctab) : nat -> nat -> float :=
+  @derived_cost FloatNum pts metric_eps (cost_from ct) m.
+(* extra `holds` conjunct: every value rdp.compute_cost_coef(points[l:r], lf.linear_fit_points(points[l:r]), cost) the harness
+   recorded equals the derived cost bit for bit (+0 = -0, NaN = NaN) *)
+Definition cost_match (m : metric) (pts : list (float * float)) (ct : ctab) : bool :=
+  negb (metric_derived m) ||
+  forallb (fun e => f_same (snd e) (segcost_of m pts ct (fst (fst e)) (snd (fst e)))) ct.
